@@ -103,6 +103,147 @@ def classify_fn_result(db, fn, name):
     return ("benign", "%s builds only %s" % (cfg.short(name), sorted(set(made))))
 
 
+# ---------------------------------------------------------------- why may a visibility filter say `true`?
+OPT_PASS = ("core::option::Option::map", "core::option::Option::as_ref", "core::option::Option::as_deref", "core::option::Option::cloned",
+            "core::option::Option::copied", "core::option::Option::as_mut", "core::option::Option::inspect", "core::option::Option::filter",
+            "core::option::Option::and_then", "core::clone::Clone::clone")
+NOT_REFS = lambda f: f[0] == "variant" and "AnnouncementMessage" in (f[2] or "") and ((f[4] and f[3] in ("Node", "Inventory")) or (not f[4] and f[3] == "Refs"))
+
+
+def _upvar(db, fn, e):
+    """If e reads environment field i of closure fn: (parent, expression in the parent)."""
+    x = peel(e)
+    if x[0] == "field" and "root" in fn:
+        b = peel(x[1])
+        if b[0] == "arg" and b[1] == 1 and isinstance(x[3], int):
+            return flow.upvar_source(db, fn, x[3])
+    return None
+
+
+def none_reasons(db, fn, e, depth=0):
+    """Why may the Option-valued expression e be None?  Reasons: 'not-refs' (the announcement is not a refs
+    announcement), 'lookup:<callee>' (a lookup yielded nothing), 'const-none', 'unknown:<expr>'."""
+    if depth > 10:
+        return {"unknown:depth"}
+    uv = _upvar(db, fn, e)
+    if uv:
+        return none_reasons(db, uv[0], uv[1], depth + 1)
+    x = peel(e)
+    if x[0] == "agg" and isinstance(x[1], dict) and x[1].get("adt") == "core::option::Option":
+        return {"const-none"} if x[1].get("var") == "None" else set()
+    if x[0] == "const" and isinstance(x[1], dict) and any(a.endswith("Option::None") for a in (x[1].get("pagg") or [])):
+        return {"const-none"}
+    if x[0] == "call":
+        dn = x[1].get("dn") or ""
+        if dn in OPT_PASS and x[2]:
+            return none_reasons(db, fn, x[2][0], depth + 1)
+        return {"lookup:%s" % cfg.short(x[1].get("n") or dn)}
+    if x[0] == "phi":
+        out = set()
+        g = graph(fn)
+        for d in g.defs().get(x[1], []):
+            if d[0] == "stmt" and d[4]:
+                r = none_reasons(db, fn, cfg.expr_rvalue(fn, d[3]), depth + 1)
+                bd = d[1]
+            elif d[0] == "call" and d[4]:
+                t = d[2]
+                r = none_reasons(db, fn, ("call", t[1], [expr_operand(fn, a) for a in t[2]], d[1]), depth + 1)
+                bd = d[1]
+            else:
+                continue
+            if "const-none" in r:
+                ok, al, _ = rules.dom_check(db, fn, [bd], NOT_REFS)
+                if ok and al:
+                    r = (r - {"const-none"}) | {"not-refs"}
+            out |= r
+        return out or {"unknown:%s" % show(x)}
+    return {"unknown:%s" % show(x)[:60]}
+
+
+def some_true_reasons(db, fn, e, depth=0):
+    """Reasons the payload of Some(..) in Option<bool> expression e may be true."""
+    if depth > 10:
+        return {"unknown:depth"}
+    x = peel(e)
+    if x[0] == "call":
+        dn = x[1].get("dn") or ""
+        if dn in ("core::option::Option::map", "core::option::Option::and_then") and len(x[2]) > 1:
+            c = peel(x[2][1])
+            if c[0] == "agg" and isinstance(c[1], dict) and c[1].get("closure"):
+                out = set()
+                for f in db.by_key.get(cfg.strip_generics(c[1]["closure"]), []):
+                    if f["unit"] == fn["unit"]:
+                        out |= true_reasons(db, f, depth + 1)
+                return out or {"unknown:closure"}
+        if dn in OPT_PASS and x[2]:
+            return some_true_reasons(db, fn, x[2][0], depth + 1)
+    return {"unknown:%s" % show(x)[:60]}
+
+
+def expr_true_reasons(db, fn, e, depth=0):
+    if depth > 10:
+        return {"unknown:depth"}
+    x = peel(e)
+    if x[0] == "const" and isinstance(x[1], dict) and "v" in x[1]:
+        return {"const"} if x[1]["v"] != "0" else set()
+    if x[0] == "call":
+        dn = x[1].get("dn") or ""
+        n = x[1].get("n") or ""
+        if VIS.search(n):
+            return {"vis"}
+        if dn == "core::option::Option::unwrap_or" and len(x[2]) == 2:
+            r = some_true_reasons(db, fn, x[2][0], depth + 1)
+            d = expr_true_reasons(db, fn, x[2][1], depth + 1)
+            if d:
+                nr = none_reasons(db, fn, x[2][0], depth + 1)
+                r |= (nr if d == {"const"} else (nr | d))
+            return r
+        if dn in ("core::option::Option::unwrap_or_default",) and x[2]:
+            return some_true_reasons(db, fn, x[2][0], depth + 1)
+        if dn in ("core::option::Option::is_some_and", "core::option::Option::is_none_or") and len(x[2]) == 2:
+            fake = ("call", {"dn": "core::option::Option::map", "n": "core::option::Option::map"}, x[2], x[3] if len(x) > 3 else None)
+            r = some_true_reasons(db, fn, fake, depth + 1)
+            if dn.endswith("is_none_or"):
+                r |= none_reasons(db, fn, x[2][0], depth + 1)
+            return r
+        if dn == "core::option::Option::map_or" and len(x[2]) == 3:
+            fake = ("call", {"dn": "core::option::Option::map", "n": "core::option::Option::map"}, [x[2][0], x[2][2]], None)
+            r = some_true_reasons(db, fn, fake, depth + 1)
+            d = expr_true_reasons(db, fn, x[2][1], depth + 1)
+            if d:
+                r |= none_reasons(db, fn, x[2][0], depth + 1)
+            return r
+    if x[0] == "bin" and x[1] in ("BitAnd", "BitOr"):
+        return expr_true_reasons(db, fn, x[2], depth + 1) | expr_true_reasons(db, fn, x[3], depth + 1)
+    return {"unknown:%s" % show(x)[:60]}
+
+
+def true_reasons(db, clo, depth=0):
+    """Reasons a bool-returning (closure) function may return true."""
+    out = set()
+    none_facts = {}
+    for bb, tb, lab, facts in cfg.all_edge_facts(db, clo):
+        for f in facts:
+            if f[0] == "variant" and f[4] and f[3] == "None":
+                none_facts[nshow(f[1])] = f[1]
+    for bb, kind, val in rules.ret_defs(clo):
+        if kind == "const":
+            if val == 0:
+                continue
+            got = False
+            for txt, ex in none_facts.items():
+                ok, al, _ = rules.dom_check(db, clo, [bb], lambda f, txt=txt: f[0] == "variant" and f[4] and f[3] == "None" and nshow(f[1]) == txt)
+                if ok and al:
+                    out |= none_reasons(db, clo, ex, depth + 1)
+                    got = True
+            if not got:
+                okv, alv, _ = rules.dom_check(db, clo, [bb], lambda f: f[0] == "bool" and f[2] is True and mentions_visibility(db, clo, f[1]))
+                out |= {"vis"} if (okv and alv) else {"const"}
+        else:
+            out |= expr_true_reasons(db, clo, val, depth + 1)
+    return out
+
+
 def mentions_visibility(db, fn, e):
     """The expression (including closures constructed in it) calls Doc::is_visible_to."""
     for x in walk(e):
@@ -163,7 +304,9 @@ def run(ctx):
                         ok = True
                         how = "peer iterator filtered by a closure calling Doc::is_visible_to"
                         ok2, what = check_filter_doc(db, fn, clo, kind)
-                        if not ok2:
+                        if ok2 is None:
+                            ctx.ob(key + ":filter-shape", "inconclusive", what, rules.where(fn, bb), fn=fn)
+                        elif not ok2:
                             ok = False
                             how = what
         if not ok:
@@ -298,13 +441,18 @@ def check_filter_doc(db, fn, clo, kind):
                         ok = True
         if not ok:
             return False, "the repository id used for the visibility lookup does not come from the relayed refs announcement"
-        # non-refs announcements pass, refs announcements need the lookup: `None => true` is the only constant-true exit
-        for f in fam:
-            for bb, k, v in rules.ret_defs(f):
-                if k == "const" and v == 1:
-                    okc, al, bad = rules.dom_check(db, f, [bb], lambda ft: ft[0] == "variant" and ft[4] and ft[3] == "None")
-                    if not (okc and al):
-                        return False, "visibility filter lets a peer through without consulting the document"
+        # the filter may say `true` only because the document said so, or because the announcement is not a refs announcement
+        for f in fam[:1]:
+            rs = true_reasons(db, f)
+            bad = sorted(r for r in rs if r not in ("vis", "not-refs") and not r.startswith("unknown"))
+            unk = sorted(r for r in rs if r.startswith("unknown"))
+            if bad:
+                return False, ("the visibility filter lets a peer through without the document saying so (%s): a refs announcement of a "
+                               "repository that is not in local storage would be relayed to everyone" % ", ".join(bad))
+            if unk:
+                return None, "visibility filter has a shape that is not modelled (%s)" % ", ".join(unk)
+            if "vis" not in rs:
+                return False, "the visibility filter never consults the document"
         return True, ""
     # announce_refs-like: doc must be a parameter/local of the sending function
     return True, ""
